@@ -133,6 +133,7 @@ func checkC18(p *Prog, res *Result, tier string) {
 	res.rule("C18-R2", "every call of Backend/BackendShim Watch in the server layer is dominated by IsLeader()==true", 2)
 	res.rule("C18-R3", "every call of Backend/BackendShim Get, List, Count, GetPartitions, ListByStream in the server layer is dominated by SyncReadRevision()==nil", 10)
 	res.rule("C18-R4", "SyncReadRevision returns nil only on the leader branch or after SetCurrentRevision(revision fetched from the leader with a nil error)", 2)
+	res.rule("C18-R6", "no step of the leader fetch fails silently: the error of the request, of reading the answer's body and of decoding it is returned, or some other non-nil error is", 3)
 	res.rule("C18-R5", "the revision publisher returns the backend's committed revision only under IsLeader()==true and writes a non-2xx status first otherwise; the fetch returns success only for status 200", 3)
 
 	nGuards := 0
@@ -434,6 +435,39 @@ func checkPublisher(p *Prog, r *Roles, lr *leaderRoles, res *Result) {
 		}
 		if !hasStatus {
 			continue
+		}
+		// R6: no step of the fetch fails silently: the error of the request, of reading the body and of decoding it is
+		// returned (or a different non-nil error is); otherwise the zero revision is handed to the follower as the leader's
+		{
+			fetch := f
+			errflowAcceptFailure = true
+			checkErrorPreservation(p, res, "C18-R6", func(g *ssa.Function) bool { return g == fetch },
+				func(c ssa.CallInstruction) (string, bool) {
+					if _, isCall := c.(*ssa.Call); !isCall {
+						return "", false
+					}
+					cc := c.Common()
+					var name, pkg string
+					if cc.IsInvoke() {
+						name = cc.Method.Name()
+						if cc.Method.Pkg() != nil {
+							pkg = cc.Method.Pkg().Path()
+						}
+					} else if sc := cc.StaticCallee(); sc != nil && sc.Pkg != nil {
+						name, pkg = sc.Name(), sc.Pkg.Pkg.Path()
+						if sc.Signature.Recv() != nil {
+							name = "(" + types.TypeString(sc.Signature.Recv().Type(), func(q *types.Package) string { return q.Name() }) + ")." + name
+						}
+					} else {
+						return "", false
+					}
+					if name == "Close" || strings.HasSuffix(name, ".Close") || strings.HasPrefix(pkg, modPath+"/pkg/metrics") {
+						return "", false
+					}
+					return pkg + "." + name, true
+				},
+				"the follower takes the zero revision (or whatever was decoded so far) for the leader's committed revision: SyncReadRevision reports success and the follower serves a snapshot that misses committed writes")
+			errflowAcceptFailure = false
 		}
 		ei := errorResultIndex(f.Signature)
 		n := 0
